@@ -118,6 +118,11 @@ def install(it):
                     return SV(PV.is_r(z))
                 if cls is type(None):
                     return SV(PV.is_none(z))
+                if getattr(cls, "__name__", "") in ("Number", "Complex", "Real"):
+                    from .values import pv_is_num
+                    return SV(pv_is_num(z))
+                if getattr(cls, "__name__", "") in ("Integral", "Rational"):
+                    return SV(z3.Or(PV.is_i(z), PV.is_b(z)))
                 if cls in (dict, list, tuple, set, collections.abc.Iterable, collections.abc.Mapping) or isinstance(cls, type):
                     f = z3.Function(f"isinstance_{getattr(cls, '__name__', 'x')}", PV, B)
                     if cls is object:
@@ -243,6 +248,9 @@ def install(it):
 
     @nat("zip")
     def _zip(it, *a, strict=False):
+        if a and all(hasattr(x, "generic_row") for x in a):
+            from .arrays import ZipArr
+            return ZipArr(it, list(a))
         return list(zip(*[it.iterate(x) for x in a]))
 
     @nat("enumerate")
